@@ -542,6 +542,9 @@ pub fn synthetic_project(seed: u64) -> Project {
     // the other files declare a generic of the same name with another shape (same-named types in
     // two files, instantiated with the same arguments)
     let own_generic = use_generic && rng.chance(1, 2);
+    // generics whose body asks for an instantiation with other arguments (a new one at every
+    // level, or a finite orbit)
+    let grow_generic = use_generic && rng.chance(1, 3);
     // kinds are drawn up front so that utility types can be applied to object types only
     let kinds: Vec<usize> = (0..n_types).map(|_| rng.below(10)).collect();
     let tagged = rng.chance(1, 3);
@@ -570,6 +573,7 @@ pub fn synthetic_project(seed: u64) -> Project {
                     6 => format!("[{}, number]", r(&mut rng)),
                     7 => format!("Record<string, {}>", r(&mut rng)),
                     8 => format!("{}<{}>", ["Partial", "Required", "Readonly"][rng.below(3)], r_obj(&mut rng)),
+                    9 if use_generic && grow_generic && rng.chance(1, 3) => ["Nest<string>", "Grow<number>", "Swap<string, number>", "Nest<Nest<boolean>>"][rng.below(4)].to_string(),
                     9 if use_generic => {
                         if rng.chance(1, 2) {
                             format!("Box<{}>", ["string", "number", "boolean"][rng.below(3)])
@@ -646,6 +650,13 @@ pub fn synthetic_project(seed: u64) -> Project {
             // a named union of literals whose emitted member order is not the order JavaScript's
             // default sort gives (mixed kinds, a member that is a prefix of another)
             ["\"auto\" | 10 | 100 | 9", "\"done\" | \"in progress\" | \"in\"", "\"yes\" | true | 1", "\"b\" | \"a!\" | \"a\" | \"B\"", "2 | 10 | 1 | \"1\" | false | null"][rng.below(5)].to_string()
+        } else if rng.chance(1, 4) {
+            // a named (possibly recursive) tuple
+            match rng.below(3) {
+                0 => format!("[string, ...{}[]]", names[i]),
+                1 => format!("[number, {} | null]", r(&mut rng)),
+                _ => format!("[{}, ...{}[]]", r(&mut rng), r(&mut rng)),
+            }
         } else if rng.chance(1, 2) && i > 0 {
             // a named nullable alias (used as a property type elsewhere)
             format!("{} | null", names[rng.below(i)])
@@ -784,6 +795,17 @@ pub fn synthetic_project(seed: u64) -> Project {
     // type queries evaluated by the semantic engine on (possibly recursive) named types
     let objs: Vec<usize> = (0..n_types).filter(|i| object_fields[*i] > 0).collect();
     let mut queries: Vec<(String, String)> = vec![];
+    if rng.chance(1, 4) {
+        // semantic operators over any named type (tuples, unions, aliases), not only objects
+        let a = names[rng.below(n_types)].clone();
+        let body = match rng.below(4) {
+            0 => format!("Exclude<{} | null, null>", a),
+            1 => format!("Exclude<{} | string, string>", a),
+            2 => format!("{} extends unknown[] ? \"list\" : \"other\"", a),
+            _ => format!("Exclude<{}, undefined>[]", a),
+        };
+        queries.push(("QAny".to_string(), body));
+    }
     if !objs.is_empty() && rng.chance(1, 2) {
         let nq = rng.range(1, 3);
         for q in 0..nq {
@@ -839,6 +861,9 @@ pub fn synthetic_project(seed: u64) -> Project {
             if use_generic {
                 src.push_str("export type Box<T> = { value: T; tag?: string };\n");
             }
+            if grow_generic {
+                src.push_str("export type Nest<T> = { v: T; n?: Nest<T[]> };\nexport type Grow<T> = { v: T; n?: Grow<{ w: T }> | null };\nexport type Swap<A, B> = { a: A; b: B; swap?: Swap<B, A> };\n");
+            }
         } else if use_enum || use_generic {
             let mut v = vec![];
             if use_enum {
@@ -847,6 +872,11 @@ pub fn synthetic_project(seed: u64) -> Project {
             }
             if use_generic && !own_generic {
                 v.push("Box");
+            }
+            if grow_generic {
+                v.push("Nest");
+                v.push("Grow");
+                v.push("Swap");
             }
             if !v.is_empty() {
                 src.push_str(&format!("import {{ {} }} from \"./entry\";\n", v.join(", ")));
